@@ -29,3 +29,13 @@ import CosetProofs.Ties.Budget.Context
 import CosetProofs.Ties.Budget.Common
 import CosetProofs.Ties.Budget.Util
 import CosetProofs.Ties.Budget.Iana
+import CosetProofs.Ties.Compare.Header
+import CosetProofs.Ties.Compare.Sign
+import CosetProofs.Ties.Compare.Mac
+import CosetProofs.Ties.Compare.Encrypt
+import CosetProofs.Ties.Compare.Key
+import CosetProofs.Ties.Compare.Cwt
+import CosetProofs.Ties.Compare.Context
+import CosetProofs.Ties.Compare.Common
+import CosetProofs.Ties.Compare.Util
+import CosetProofs.Ties.Compare.Iana
